@@ -18,6 +18,7 @@ N15 `match t { Enum::A => { X } #[cfg(c)] Enum::B => { Y } _ => {} }` as a state
     unit variant  ->  `if t == Enum::A { X }  #[cfg(c)] if t == Enum::B { Y }`   (the patterns are disjoint, so the order is free)
 N18 `match M.entry(K) { Entry::Occupied(o) => { A }, Entry::Vacant(v) => { .. v.insert(V) .. } }`  ->
     `if M.contains_key(&K) { A } else { .. M.insert(K, V) .. }`  (o unused)  /  `if let Some(o) = M.get_mut(&K) { A[o.into_mut() := o] } else { .. }`
+N32 `C.then(|| X)` -> `if C { Some(X) } else { None }`
 N31 `match (a, b) { (true, true) => .., .. }` over bool literals -> nested `if`s
 N30 `I.try_for_each(|p| BODY)?;` -> `for p in I { BODY with Ok(()) -> nothing, Err(e) -> return Err(e) }`
 N29 `let (a, b) = if C { (X1, X2) } else { (Y1, Y2) };` -> one conditional `let` per component
@@ -1050,6 +1051,17 @@ def norm(n):
                 rep = _entry_match(st)
             out.extend(rep if rep is not None else [st])
         n['stmts'] = out
+    if k == 'MethodCall' and n.get('method') == 'then' and len(n.get('args', [])) == 1 and n['args'][0].get('k') == 'Closure' and not n['args'][0].get('params'):
+        # N32 `C.then(|| X)` -> `if C { Some(X) } else { None }` (bool::then is lazy)
+        l = n.get('l', 0)
+        body = n['args'][0]['body']
+        c = n['recv']
+        while c.get('k') == 'Paren':
+            c = c['expr']
+        some = {'k': 'Call', 'l': l, 'func': _path('Some', l), 'args': [body]}
+        return {'k': 'If', 'l': l, 'cond': c, 'desugared': 'bool-then',
+                'then': {'k': 'Block', 'l': l, 'stmts': [{'k': 'Expr', 'expr': some, 'semi': False, 'l': l}]},
+                'else': {'k': 'Block', 'l': l, 'stmts': [{'k': 'Expr', 'expr': _path('None', l), 'semi': False, 'l': l}]}}
     if k == 'Match':
         r31 = _bool_tuple_match(n)
         if r31 is not None:
